@@ -366,6 +366,10 @@ def observe(df):
         key = (ph, r["Component"])
         if key in out:
             out.setdefault("__dups__", []).append(key)
+            if out[key].get("Type", "") != "" and r.get("Type", "") == "":
+                # a COMPONENT that bears the name of a summary row ("System total"): the key stays with the component, the summary row moves aside
+                out[(ph, "\x00summary:" + str(r["Component"]))] = r
+                continue
         out[key] = r
     out["__cols__"] = cols
     return out
